@@ -1,6 +1,7 @@
 import PilotaModel.Lemmas.SpecBinChk
 import PilotaModel.Lemmas.SpecCmpChk
 import PilotaModel.Lemmas.SpecMsg
+import PilotaModel.Lemmas.SpecDecCmp
 import PilotaModel.Lemmas.OpsRun
 /-
   C03 — the wire format conforms to the Apache Thrift binary and compact protocol specifications.
@@ -56,6 +57,33 @@ theorem pilota_reads_any_spec_compact (v : TVal) (bs : Bytes) (h : SpecCmp.Enc v
   apply SpecCmp.readVal_of_enc v bs h _ _ rs hr
   have := SpecCmp.enc_size v bs h
   simp only [List.length_append]; omega
+
+/-- the reference's own total decoders recover the value from EVERY legal encoding followed by anything … -/
+theorem spec_decodes_any_spec (v : TVal) (bs : Bytes) (r : Bytes) :
+    (SpecBin.Enc v bs → SpecBin.decodeTop v.ttype (bs ++ r) = .ok (v, r)) ∧
+    (SpecCmp.Enc v bs → SpecCmp.decodeTop v.ttype (bs ++ r) = .ok (Compact.norm v, r)) := by
+  constructor
+  · intro h
+    unfold SpecBin.decodeTop
+    apply SpecBin.decode_of_enc v bs h
+    have := SpecBin.enc_size v bs h
+    simp only [List.length_append]; omega
+  · intro h
+    unfold SpecCmp.decodeTop
+    apply SpecCmp.decode_of_enc v bs h
+    have := SpecCmp.enc_size v bs h
+    simp only [List.length_append]; omega
+
+/-- … in particular from what pilota writes: an independent decoder written from the specification
+recovers exactly the value that was written (compact: up to the types of empty maps). -/
+theorem spec_decodes_pilota (v : TVal) (hw : v.wt = true) (r : Bytes) :
+    SpecBin.decodeTop v.ttype (Binary.run .be v.ops ++ r) = .ok (v, r) ∧
+    ∀ (ws : Compact.CW), ws.pending = none → ∃ bs, Compact.run ws v.ops = .ok (ws, bs) ∧
+      SpecCmp.decodeTop v.ttype (bs ++ r) = .ok (Compact.norm v, r) := by
+  refine ⟨(spec_decodes_any_spec v _ r).1 (pilota_binary_is_spec v hw).1, ?_⟩
+  intro ws hp
+  obtain ⟨bs, h1, h2, _⟩ := pilota_compact_is_spec v hw ws hp
+  exact ⟨bs, h1, (spec_decodes_any_spec v bs r).2 h2⟩
 
 /-- the executable membership tests the driver runs on every alternative encoding fed to the real
 readers are sound: whatever they accept is a legal encoding. -/
